@@ -1,4 +1,5 @@
 """C20 — Versions parse, print and order numerically (structural clauses)."""
+import re
 from ..core import BV, strip, walk, fmt_t
 from .. import lib, guards
 
@@ -17,7 +18,10 @@ def _from_str_get_mut(R, c, bv, gm_stores):
     R.check("C20-R1", "source", any(n.endswith("::split") for n in names) and any(n.endswith("Iterator::enumerate") for n in names) and sep == [46] and not any(n.split("::")[-1] in ("filter", "skip", "take", "rev", "step_by") for n in names),
             "iterator is enumerate(split('.'))", "iterator source is not enumerate(split('.')): %s sep=%s" % (names, sep))
     ps = [t2 for _, t2 in bv.calls() if lib.callee_is(t2, "parse")]
-    R.check("C20-R1", "component-type", len(ps) == 1 and [c.types[s_]["s"] for s_ in ps[0].get("substs", []) if isinstance(s_, int)] == ["u32"], "components parsed with str::parse::<u32>", "component parser is not parse::<u32>")
+    for cb_ in lib.closures_of(c, bv.id):
+        ps += [t2 for _, t2 in BV.of(cb_).calls() if lib.callee_is(t2, "parse")]
+    by_path = "parse::<u32>" in fmt_t(it)   # `.map(str::parse::<u32>)`: the parser handed on as a function item
+    R.check("C20-R1", "component-type", (len(ps) == 1 and [c.types[s_]["s"] for s_ in ps[0].get("substs", []) if isinstance(s_, int)] == ["u32"]) or (not ps and by_path), "components parsed with str::parse::<u32>", "component parser is not parse::<u32>")
     for (bi, si, p, r, gm) in gm_stores:
         arr = strip(gm[2][0])
         idx = strip(gm[2][1])
@@ -34,6 +38,11 @@ def _from_str_get_mut(R, c, bv, gm_stores):
             si_ = guards.switch_info(bv, sb)
             desc = fmt_t(si_.term)
             if si_.kind == "discr" and si_.ty.get("d") == "std::option::Option" and (lib.head_call(si_.term) or "").endswith("Iterator::next"):
+                continue
+            if si_.kind == "discr" and "std::ops::Try::branch" in desc and "::get_mut" in desc and "::ok_or" in desc:
+                # `get_mut(i).ok_or(TooMany)?`: the Break edge is the out-of-range case and must leave the loop
+                brk = [b for b in bv.succ[sb] if "Continue" not in si_.edge_names(bv, b)]
+                bound_ok = bool(brk) and all(nbi not in bv.reach_from([b]) for b in brk)
                 continue
             if si_.kind == "discr" and "std::ops::Try::branch" in desc:
                 continue
@@ -67,6 +76,9 @@ def run(F, R):
                 tgt = strip(bv.trace_local(p["l"]))
                 if tgt[0] == "field" and tgt[1][0] == "downcast" and tgt[1][2] == "Some" and strip(tgt[1][1])[0] == "call" and lib.norm(strip(tgt[1][1])[1]).endswith("::get_mut"):
                     gm_stores.append((bi, si, p, r, strip(tgt[1][1])))
+                elif tgt[0] == "okpayload" and strip(tgt[1])[0] == "call" and lib.norm(strip(tgt[1])[1]).endswith("::ok_or") and strip(strip(tgt[1])[2][0])[0] == "call" and lib.norm(strip(strip(tgt[1])[2][0])[1]).endswith("::get_mut"):
+                    # `let slot = parts.get_mut(i).ok_or(TooMany)?; *slot = ..`
+                    gm_stores.append((bi, si, p, r, strip(strip(tgt[1])[2][0])))
         if not stores and gm_stores:
             _from_str_get_mut(R, c, bv, gm_stores)
         elif R.floor("C20-R1", "indexed stores in from_str", len(stores), 1):
@@ -183,7 +195,17 @@ def run(F, R):
     adt = c.adts.get(V)
     if R.floor("C20-R4", "Version ADT", 1 if adt else 0, 1):
         f = adt["variants"][0]["fields"]
-        R.check("C20-R4", "layout", len(f) == 1 and c.types[f[0]["t"]]["s"] == "[u32; 4]", "struct Version([u32; 4])", "Version is not a single [u32; 4] field: %s" % [c.types[x["t"]]["s"] for x in f])
+        lay = c.types[f[0]["t"]]["s"] if len(f) == 1 else ""
+        m_ = re.fullmatch(r"\[u32; ([A-Za-z_:0-9]+)\]", lay)
+        if m_ and not m_.group(1).isdigit():
+            # a named length: evaluate it
+            kk = [k_ for k_ in c.consts if k_ == m_.group(1) or k_.endswith("::" + m_.group(1))]
+            kv = lib.const_val(c.consts[kk[0]]) if len(kk) == 1 else None
+            if kv is None and len(kk) == 1:
+                mm = re.search(r"(\d+)", c.consts[kk[0]].get("s", ""))
+                kv = int(mm.group(1)) if mm else None
+            lay = "[u32; %s]" % kv
+        R.check("C20-R4", "layout", len(f) == 1 and lay == "[u32; 4]", "struct Version([u32; 4])", "Version is not a single [u32; 4] field: %s" % [c.types[x["t"]]["s"] for x in f])
         for tr in ("std::cmp::PartialEq", "std::cmp::Eq", "std::cmp::PartialOrd", "std::cmp::Ord"):
             im = [i for i in c.impls if i.get("trait") == tr and i["self"] == V]
             R.check("C20-R4", "derived:" + tr, len(im) == 1 and im[0]["derived"], "derived", "%s for Version is not #[derive]d (hand-written or missing)" % tr)
